@@ -189,6 +189,14 @@ def run(cx):
             cx.check('C03.T1', bool(re.search(r'set_max_size\(BinEncoder::new\(.*\),phi\((Edns::max_payload\(arg1\.edns@Some\.0\)|512|const:(u16|num)::MAX|65535)(\|(Edns::max_payload\(arg1\.edns@Some\.0\)|512|const:(u16|num)::MAX|65535)){2}\)\)$', first.term)),
                      e.path, first.key(), 'limit-is-one-of(edns payload,512,u16::MAX)', first.term, first.loc)
             cx.check('C03.T1', second.term.endswith(',512)'), e.path, second.key(), 'fallback-limit-512', second.term, second.loc)
+        # the fallback response is written into an EMPTY buffer: a second encoder over the same Vec must be preceded by clear()
+        # (a new BinEncoder starts at offset 0 but does not shorten the Vec: bytes of the failed attempt would trail the SERVFAIL header)
+        encs = sorted(cx.calls(e, r"BinEncoder<'\w+>::new$|BinEncoder::new$"), key=lambda s_: s_.fn.span(s_.bb)[0])
+        clears = {s_.bb for s_ in cx.calls(e, r'Vec<T, A>::clear$|Vec::clear$')}
+        cx.check('C03.T1', len(encs) == 2, e.path, 'calls', 'two-encoders(real,fallback)', str(len(encs)))
+        if len(encs) == 2 and encs[0].term == encs[1].term:
+            cx.must_pass('C03.T1', e, [encs[1]], via_blocks=clears, start_blocks=[b for b in e.succs(encs[0].bb) if not e.blocks[b]['cleanup']],
+                         what='buffer-cleared-before-the-fallback-encoding')
         lim = cx.assigns(e, r'^512$', place=None)
         cx.guard('C03.T1', lim[:1], {'udp': r'^is\(arg2,Udp\)$', 'no-edns': r'^!ok\(arg1\.edns\)$'}, fn=e)
         mp = cx.calls(e, r'Edns::max_payload$')
